@@ -54,8 +54,8 @@ def shards(tier):
 
 def floors(tier):
     return {"cases": 20000, "no_checker_cases": 3000, "with_checker_cases": 10000, "unknown_name_cases": 1000,
-            "nonstring_builtin_cases": 2000, "custom_return_cases": 100, "listed_raise_cases": 30,
-            "unlisted_raise_cases": 300, "subclass_raise_cases": 30, "format_errors_seen": 2000, "nested_cases": 3000}
+            "nonstring_builtin_cases": 2000, "custom_return_cases": 300, "listed_raise_cases": 100,
+            "unlisted_raise_cases": 1000, "subclass_raise_cases": 100, "format_errors_seen": 2000, "nested_cases": 3000}
 
 
 def wrappers(d, fmt):
@@ -142,7 +142,7 @@ def custom_cases(ctx, rng, d):
     for r in RETURNS:
         chk = jsonschema.FormatChecker(formats=())
         chk.checks("custom")(lambda instance, r=r: r)
-        for inst in ("x", 5, None):
+        for inst in ("x", 5, None, [], [1, "x"], {}, {"a": 1}, True, 1.5):
             case = {"draft": d, "custom_returns": repr(r), "instance": inst}
             ctx.case([d, "ret", repr(r), inst])
             ctx.count("cases")
@@ -172,8 +172,10 @@ def custom_cases(ctx, rng, d):
             raise exc
         chk = jsonschema.FormatChecker(formats=())
         chk.checks("custom", raises=listed_spec)(fn)
-        for schema in ({"format": "custom"}, {"items": {"format": "custom"}}, {"properties": {"a": {"format": "custom"}}}):
-            inst = {"format": "x", "items": ["x"], "properties": {"a": "x"}}[next(iter(schema))]
+        for schema, inst in (({"format": "custom"}, "x"), ({"items": {"format": "custom"}}, ["x"]),
+                             ({"properties": {"a": {"format": "custom"}}}, {"a": "x"}), ({"format": "custom"}, []),
+                             ({"format": "custom"}, {"k": [1]}), ({"format": "custom"}, 7), ({"format": "custom"}, None),
+                             ({"items": {"format": "custom"}}, [{}]), ({"properties": {"a": {"format": "custom"}}}, {"a": [1]})):
             case = {"draft": d, "schema": schema, "instance": inst, "raises": repr(listed_spec), "raised": repr(exc)}
             ctx.case([d, schema, kind, repr(listed_spec)])
             ctx.count("cases")
